@@ -315,6 +315,25 @@ def leg_with(ns, res, spec):
                             res.violation('py:with-modifier-not-applied:%s' % ('join' if join else 'input'), '[py] query_csv(%r, with_headers=%s): rows %r error %r ; expected %r (effective header = %s)' % (q, flag, rws, err, exp, eff), case)
                         elif eff and hdr is not None and 'k0' not in hdr[0]:
                             res.violation('py:header-line-lost', '[py] %r: output header %r does not carry the input header' % (q, hdr), case)
+        # named columns of BOTH tables under every way of switching the header on (the join table's names must follow the modifier too)
+        for flag, mod in ((True, ''), (False, 'header'), (True, 'header'), (False, 'headers')):
+            for q0 in ('select a.k0, b.y0, bNR join jn_1.csv on a.k0 == b.k0', 'select a["x0"], b["y0"] join jn_1.csv on a1 == b1', 'select a1, b2 join jn_1.csv on a["k0"] == b["k0"]'):
+                q = q0 + ((' WITH (%s)' % mod) if mod else '')
+                exp = {0: [['k1', 'y1', 1], ['k2', 'y2', 2]], 1: [['x1', 'y1'], ['x2', 'y2']], 2: [['k1', 'y1'], ['k2', 'y2']]}[('select a.k0', 'select a["x0"]', 'select a1').index(q0[:len('select a.k0')] if q0.startswith('select a.k0') else (q0[:len('select a["x0"]')] if q0.startswith('select a["x0"]') else 'select a1'))]
+                err = None
+                rws = None
+                try:
+                    ns.rbql.query_csv(q, inp, ',', 'quoted', outp, ',', 'quoted', 'utf-8', [], flag)
+                    with open(outp, encoding='utf-8', newline='') as f:
+                        rr = refcsv.read_text(f.read(), ',', 'quoted', 'utf-8', True)
+                    rws = [[int(v) if v.isdigit() else v for v in r] for r in rr.records]
+                except Exception as e:
+                    err = '%s: %s' % (util.error_class(e), str(e)[:120])
+                res.evaluations += 1
+                res.count('with_modifier_named_join_runs')
+                res.distinct_disjoint += 1
+                if err is not None or rws != exp:
+                    res.violation('py:with-modifier-named-join-columns', '[py] query_csv(%r, with_headers=%s): rows %r error %r ; expected %r' % (q, flag, rws, err, exp), {'leg': 'with', 'query_text': q, 'flag': flag, 'modifier': mod, 'join': True})
         # header line is never data: attribute variables taken from the header line, first data record has NR 1
         for q, exp in (('select a.k0, a["x0"], NR', [['k1', 'x1', 1], ['k2', 'x2', 2]]), ('select NR, a.x0 where NR == 1', [[1, 'x1']])):
             ns.rbql.query_csv(q, inp, ',', 'quoted', outp, ',', 'quoted', 'utf-8', [], True)
@@ -360,7 +379,7 @@ def run_shard(spec, res):
 def summarize(tier, seed, m):
     return {
         'rule': 'random headers of 1-5 distinct names over printable ASCII incl. both quotes, backslash, backtick, brackets, #, =, %%, spaces, tab, newline, non-ASCII (and prefix / suffix / case variants of each other; names containing an a.ident / b.ident token excluded as quantified) over tables whose cell (r, c) is the unique token r{r}c{c}; for every column and every spelling (a["..."], a[\'...\'], a.name when identifier-safe, bare name in direct mode) the query `select <var>, NR` must return exactly that column and NR = 1.. ; sources: list column names, pandas columns, sqlite columns, CSV header line (query_csv); WITH (header | noheader | headers | noheaders) x caller flag x {input, input + join} on CSV incl. the command line. distinct_nontrivial = distinct (source, header, column, spelling) lookups.',
-        'required': ['js_lookups', 'js_lookups:bt', 'named_target:update', 'named_target:except', 'named_target:joinkey', 'list_lookups', 'list_lookups:dq', 'list_lookups:sq', 'list_lookups:attr', 'direct_mode_lookups', 'pandas_lookups', 'sqlite_lookups', 'csv_lookups', 'with_modifier_runs', 'header_never_data_checks', 'cli_with_modifier_runs'],
+        'required': ['js_lookups', 'js_lookups:bt', 'named_target:update', 'named_target:except', 'named_target:joinkey', 'list_lookups', 'list_lookups:dq', 'list_lookups:sq', 'list_lookups:attr', 'direct_mode_lookups', 'pandas_lookups', 'sqlite_lookups', 'csv_lookups', 'with_modifier_runs', 'with_modifier_named_join_runs', 'header_never_data_checks', 'cli_with_modifier_runs'],
         'assumptions': ['a.name only for names that are not Python / JS keywords and do not collide with members of the record object; direct mode only for names that do not shadow the engine\'s own locals (documented limitations)'],
     }
 
